@@ -261,7 +261,7 @@ func c05API(t *testing.T, seed uint64) rt.Result {
 		var mu sync.Mutex
 		var writers []corebgp.UpdateMessageWriter
 		served := false
-		serveRet := make(chan error, 4)
+		serveRet := make(chan error, 512)
 		addrs := []string{"10.0.1.1", "10.0.1.2", "2001:db8::1", "10.0.1.4"}
 		plugin := &hz.QuietPlugin{OnEst: func(wr corebgp.UpdateMessageWriter) {
 			mu.Lock()
@@ -321,7 +321,9 @@ func c05API(t *testing.T, seed uint64) rt.Result {
 				s := served
 				served = true
 				mu.Unlock()
-				if !s {
+				// Serve is also called while the server is serving and after a Serve that a
+				// listener error ended: it must return an error, not start the peers again
+				if !s || rr.IntN(3) == 0 {
 					var ls []net.Listener
 					switch rr.IntN(3) {
 					case 0:
